@@ -197,6 +197,13 @@ def rewardOf (lg : α → α) (cfg : EnvCfg α) (b : Broker α) : Broker α × E
 
 /-! ### reset / step -/
 
+/-- `Transmitter._reset` hands `numpy.random.choice` the range of admissible starts; an empty range is
+    refused (ValueError), and the sampled index always lies in the range -/
+def resetAdmissible (cfg : EnvCfg α) (lo hi : Time) (start : Nat) : Bool :=
+  match cfg.episodeLen with
+  | none => true
+  | some L => decide (start < nStarts (cfg.tx.foldSteps lo hi).length L)
+
 /-- `TradingEnv.reset(fold, episode_length)`; `start` is the sampled start index (an input) -/
 def envReset (cfg : EnvCfg α) (lo hi : Time) (start : Nat) (prevClock : Option Time) : EnvState α :=
   let b0 : Broker α := Broker.init cfg.deposit
